@@ -20,6 +20,7 @@ import (
 	"fmt"
 	"os"
 	"strings"
+	"sync"
 	"time"
 
 	"github.com/dominant-strategies/go-quai/common"
@@ -33,7 +34,7 @@ import (
 )
 
 func init() {
-	register(vx.CheckSpec{ID: "C06", Shards: 16, QuickBudget: 110 * time.Second, ThoroughBudg: 25 * time.Minute, Run: runC06, ReplayFn: replayC06})
+	register(vx.CheckSpec{ID: "C06", Shards: 16, QuickBudget: 240 * time.Second, ThoroughBudg: 28 * time.Minute, Run: runC06, ReplayFn: replayC06})
 }
 
 type c06Case struct {
@@ -232,6 +233,23 @@ func runC06(c *vx.Ctx) {
 	if c.Thorough() {
 		maxLen = 3
 	}
+	// the sub-process parts first (worker 0 only), with a checkpoint: code under test that is schedule
+	// dependent can bring a worker process down for good ("fatal error: concurrent map writes") while
+	// it walks the histories, and what the scheduler / race / map-order parts found must survive that
+	// (they are separate processes: run side by side)
+	var sub sync.WaitGroup
+	for _, f := range []func(*vx.Ctx){c06Sched, c06Race, c06MapOrder} {
+		f := f
+		sub.Add(1)
+		go func() {
+			defer sub.Done()
+			if perr := vx.Guard(func() { f(c) }); perr != "" {
+				c.HarnessError("sub-process part panicked: " + perr)
+			}
+		}()
+	}
+	sub.Wait()
+	c.Checkpoint()
 	if c.Wants("histories") {
 		p := c.Part("histories")
 		p.Bound("word_length", maxLen)
@@ -285,9 +303,6 @@ func runC06(c *vx.Ctx) {
 			p.States = int64(len(words))
 		}
 	}
-	c06Sched(c)
-	c06Race(c)
-	c06MapOrder(c)
 }
 
 func replayC06(c *vx.Ctx, v vx.Violation) string {
